@@ -146,6 +146,10 @@ func trimStack(b []byte) string {
 func (w *World) run() {
 	rand.Seed(w.c.Cfg.RandSeed)
 	curNameSet = w.c.Cfg.NameSet
+	curValExtra = 0
+	if w.c.Cfg.Framed {
+		curValExtra = 4
+	}
 	g.VerifResetFreeLists()
 	w.baseG = runtime.NumGoroutine()
 	w.setupCallbacks()
